@@ -5,6 +5,7 @@ import (
 	_ "verif/harness/props/c04"
 	_ "verif/harness/props/c05"
 	_ "verif/harness/props/c06"
+	_ "verif/harness/props/c08"
 	_ "verif/harness/props/c09"
 	_ "verif/harness/props/c10"
 	_ "verif/harness/props/c11"
